@@ -60,9 +60,25 @@ def accumulate(P, F, stmts, acc_key, sym):
 def count_appends(P, F, stmts, out_key, sym, on_append=None):
     """set of symbolic totals of elements appended to vector `out_key` along the paths through `stmts`
     (if/else explored; loops are not expected).  on_append(node, total_before) is called per append."""
+    class Done(object):
+        """a total of a path that has left the statement list (break / return): later statements do not add to it"""
+        __slots__ = ("v",)
+
+        def __init__(self, v):
+            self.v = v
+
+        def __hash__(self):
+            return hash(("done", self.v))
+
+        def __eq__(self, o):
+            return isinstance(o, Done) and o.v == self.v
+
     def seq(stmts, totals):
         for s in stmts:
-            totals = one(s, totals)
+            live = {t for t in totals if not isinstance(t, Done)}
+            if not live:
+                break
+            totals = {t for t in totals if isinstance(t, Done)} | one(s, live)
         return totals
 
     def one(s, totals):
@@ -75,6 +91,8 @@ def count_appends(P, F, stmts, out_key, sym, on_append=None):
             t = one(s["c"][1], set(totals))
             e = one(s["c"][2], set(totals)) if s["c"][2] is not None else set(totals)
             return t | e
+        if k == "BreakStmt":
+            return {Done(t) for t in totals}
         if k in astq.LOOPS:
             inner = one(s["c"][-1], {sp.Integer(0)})
             if inner != {sp.Integer(0)}:
@@ -109,13 +127,19 @@ def count_appends(P, F, stmts, out_key, sym, on_append=None):
                             on_append(n, totals, add, args)
                         add += size
                         continue
+                    # insert(end(), count, value): the fill form
+                    if pos and astq.is_ref_to(pos[0], out_key) and not b and any(t_ in (sc(args[1]).get("t") or "") for t_ in ("int", "long", "size_t")):
+                        if on_append:
+                            on_append(n, totals, add, args)
+                        add += sym(args[1])
+                        continue
                 raise AnalysisBroken("unrecognised insert into the output vector at %s" % F.nloc(n))
             elif name in ("resize", "clear", "erase", "pop_back", "assign", "reserve"):
                 if name != "reserve":
                     raise AnalysisBroken("output vector modified by %s at %s" % (name, F.nloc(n)))
         return {sp.expand(t + add) for t in totals}
 
-    return seq(stmts, {sp.Integer(0)})
+    return {(t.v if isinstance(t, Done) else t) for t in seq(stmts, {sp.Integer(0)})}
 
 
 def vector_size(P, F, ref, sym):
@@ -266,6 +290,10 @@ def fill_loop(P, rep, outv, rule="LAYOUT.L2"):
         rep.unknown(rule, "fill switch is not inside a for loop")
         return
     prop_param = F.params[2]
+    lam = astq.local_lambda_calls(P, F, loop)
+    if lam:
+        rep.unknown(rule, "the fill loop does part of its bookkeeping through the local lambda `%s`; this rule reads the statements of the loop body only" % lam[0][1])
+        return
     if loop["k"] == "CXXForRangeStmt":
         # `for (const auto &property : properties)`: visits the request forwards, once, by construction
         ok_loop, ivar, bound = True, None, None
